@@ -385,6 +385,25 @@ func c02Prop(c *sim.Case) {
 		}
 		ops = append(ops, o)
 	}
+	if sim.Weighted(c, "refused-token-returns", 9, 1) == 1 {
+		// a token that was refused once comes back byte for byte - to another session, after the service has verified
+		// dozens of other tokens in between (whatever it remembers about tokens it has seen must not turn the refusal
+		// into an acceptance). The token is signed with a foreign key under the provider's kid and carries no nonce,
+		// so on the refresh path only the signature stands between it and a session.
+		ho.noRT = false
+		var tok string
+		static := &sim.Behaviour{Name: "refused-token-again", Mutate: func(p *sim.IdP, _ string, cl map[string]any, _ *sim.TokenCall) string {
+			if tok == "" {
+				tok = sim.HonestToken(sim.Keys()[3].With(p.SignKey.Kid, ""), map[string]any{"iss": cl["iss"], "sub": "admin", "aud": cl["aud"], "iat": cl["iat"], "exp": time.Date(2099, 1, 1, 0, 0, 0, 0, time.UTC).Unix()})
+			}
+			return tok
+		}}
+		between := 20 + sim.Pick(c, "refused-token-returns.between", 30)
+		ops = []op{{K: "login", B: 0, Target: "/start"}, {K: "advance", B: 0, Rel: "idexp", D: time.Second}, {K: "idp", Beh: static, BehTag: "forge:refused-token"}, {K: "nav", B: 0, Target: "/a"},
+			{K: "crowd", B: 0, N: between, Arg: "full"},
+			{K: "login", B: 1, Target: "/start"}, {K: "advance", B: 1, Rel: "idexp", D: time.Second}, {K: "idp", Beh: static, BehTag: "forge:refused-token-again"}, {K: "nav", B: 1, Target: "/a"}, {K: "nav", B: 1, Target: "/a"}}
+		c.Class("scenario:refused-token-returns")
+	}
 	c.Logf("world: %v id=%q/%q at=%q/%q", ho, ho.o.IDHeader, ho.o.IDPreamble, ho.o.ATHeader, ho.o.ATPreamble)
 	logOps(c, ops)
 	m := &c02Mon{bound: map[string]*oidc.TokenResponse{}}
